@@ -64,7 +64,7 @@ func (l *Lexer) readChar() {
 
 // recordErr remembers the first reader error that is not a legitimate end of input.
 func (l *Lexer) recordErr(err error) {
-	if err != nil && err != io.EOF && err != bufio.ErrBufferFull && l.err == nil {
+	if err != nil && err != io.EOF && l.err == nil {
 		l.err = err
 	}
 }
@@ -72,7 +72,12 @@ func (l *Lexer) recordErr(err error) {
 // peek returns up to n bytes of look-ahead, remembering a reader error instead of dropping it.
 func (l *Lexer) peek(n int) ([]byte, error) {
 	bytes, err := l.reader.Peek(n)
-	l.recordErr(err)
+	// A look-ahead larger than the buffer always ends with bufio.ErrBufferFull and leaves a
+	// pending reader error in place for the next read. For a look-ahead that fits the buffer
+	// every error, bufio.ErrBufferFull included, is the underlying reader's own.
+	if n <= l.reader.Size() {
+		l.recordErr(err)
+	}
 	return bytes, err
 }
 
